@@ -112,16 +112,18 @@ class Scene(Geometry3D):
         """
         base = self.graph.base_frame
         edges = self.graph.transforms.edge_data
+        nodes = self.graph.transforms.node_data
         # a scene without any frame below the base has nothing to move
         for child in self.graph.transforms.children.get(base, []):
             combined = np.dot(transform, self.graph[child][0])
-            # only the matrix changes: keep what else is stored
-            # on the edge (geometry name, node metadata)
+            # only the matrix changes: keep the node metadata stored on
+            # the edge and the geometry the node refers to (the node is the
+            # authority: the name on the edge may be stale after a removal)
             keep = {
-                k: v
-                for k, v in edges.get((base, child), {}).items()
-                if k in ("geometry", "metadata")
+                k: v for k, v in edges.get((base, child), {}).items() if k == "metadata"
             }
+            if "geometry" in nodes.get(child, {}):
+                keep["geometry"] = nodes[child]["geometry"]
             self.graph.update(frame_from=base, frame_to=child, matrix=combined, **keep)
         return self
 
